@@ -14,6 +14,13 @@ def regen(ctx):
          R + "set_impl.go:set.Apply", R + "set_impl.go:set.Compute", R + "set_impl.go:set.Replace",
          R + "set_impl.go:set.apply", R + "set_impl.go:set.replace", R + "set_impl.go:readableSet.OnUpdate",
          R + "event_impl.go:event.Trigger", R + "event_impl.go:event.OnTrigger",
+         # the subscription variants, the reader and the remaining writers of Variable
+         R + "variable_impl.go:readableVariable.OnUpdateOnce", R + "variable_impl.go:readableVariable.OnUpdateWithContext",
+         R + "variable_impl.go:readableVariable.WithValue", R + "variable_impl.go:readableVariable.WithNonEmptyValue",
+         R + "variable_impl.go:readableVariable.Read", R + "variable_impl.go:readableVariable.Get",
+         R + "variable_impl.go:variable.Init", R + "variable_impl.go:variable.Set", R + "variable_impl.go:variable.DefaultTo",
+         R + "variable_impl.go:variable.ToggleValue", R + "variable_impl.go:variable.InheritFrom",
+         R + "variable_impl.go:variable.DeriveValueFrom",
          # a DerivedSet's inherited mutations are one more writer of the same protocol
          R + "set_impl.go:derivedSet.inheritMutations", R + "set_impl.go:derivedSet.applyInheritedMutations",
          # the callback list: every access of the notification path holds the list mutex around the whole walk
@@ -26,7 +33,9 @@ def regen(ctx):
          R + "utils.go:type=callback", R + "utils.go:type=uniqueID", R + "event_impl.go:type=event",
          "ds/list_impl.go:type=threadSafeList"],
         extra_methods=["LockExecution", "UnlockExecution", "MarkUnsubscribed", "Invoke", "PushBack", "Remove",
-                       "Values", "Next", "updateValue", "apply", "replace", "ToSlice", "Range", "applyInheritedMutations"])
+                       "Values", "Next", "updateValue", "apply", "replace", "ToSlice", "Range", "applyInheritedMutations",
+                       "Get", "Set", "Compute", "Trigger", "WasTriggered", "OnTrigger", "OnUpdate", "OnUpdateWithContext", "WithValue",
+                       "InheritFrom", "Unsubscribe"])
 
 
 SPEC = {
@@ -50,7 +59,13 @@ SPEC = {
                  "C13_skeleton_derivedSet_inheritMutations", "C13_skeleton_derivedSet_applyInheritedMutations",
                  "C13_skeleton_type_variable", "C13_skeleton_type_readableVariable", "C13_skeleton_type_set",
                  "C13_skeleton_type_readableSet", "C13_skeleton_type_derivedSet", "C13_skeleton_type_callback",
-                 "C13_skeleton_type_uniqueID", "C13_skeleton_type_event", "C13_skeleton_type_threadSafeList"],
+                 "C13_skeleton_type_uniqueID", "C13_skeleton_type_event", "C13_skeleton_type_threadSafeList",
+                 "C13_once_at_most_one", "C13_once_first_match", "C13_once_never_again", "C13_once_in_protocol",
+                 "C13_withvalue_alternates", "C13_withvalue_closed_after_teardown", "C13_withvalue_setups", "C13_context_torn_down",
+                 "C13_skeleton_variable_OnUpdateOnce", "C13_skeleton_variable_OnUpdateWithContext", "C13_skeleton_variable_WithValue",
+                 "C13_skeleton_variable_WithNonEmptyValue", "C13_skeleton_variable_Read", "C13_skeleton_variable_Get",
+                 "C13_skeleton_variable_Init", "C13_skeleton_variable_Set", "C13_skeleton_variable_DefaultTo",
+                 "C13_skeleton_variable_ToggleValue", "C13_skeleton_variable_InheritFrom", "C13_skeleton_variable_DeriveValueFrom"],
     "trusted_base": [
         "hand-written protocol model Hive/Model/Reactive.lean (+ ReactiveInst.lean) of ds/reactive variable_impl.go / set_impl.go / "
         "event_impl.go / utils.go, tied by (a) regenerated synchronisation skeletons stated as theorems, (b) differential execution of "
